@@ -45,8 +45,18 @@ type Violation struct {
 	// reproduce alone is replayed after them: the library may carry state from
 	// one call to the next (a cache, a pool, a hoisted buffer).
 	Tier           string  `json:"tier,omitempty"` // the tier whose enumeration the case index refers to
+	// ShardReplay: the process died in this case but the case alone does not kill a fresh
+	// process; the replay re-runs the worker's whole deterministic trajectory up to the case.
+	ShardReplay *ShardReplay `json:"shard_replay,omitempty"`
 	Preceding      []int64 `json:"preceding_cases,omitempty"`
 	NeedsPreceding bool    `json:"needs_preceding_cases,omitempty"`
+}
+
+// ShardReplay identifies the trajectory of one single-threaded worker process.
+type ShardReplay struct {
+	Shard  int      `json:"shard"`
+	Shards int      `json:"shards"`
+	Skip   []string `json:"skip,omitempty"`
 }
 
 // Space is one enumerated space of a check.
@@ -96,6 +106,9 @@ type Ctx struct {
 	skip    map[string]bool // signatures / case keys to skip (known crashing cases)
 	capped  atomic.Bool
 	onlyIdx int64
+	// stopSpace/stopIdx: a shard replay ends after this case
+	stopSpace string
+	stopIdx   int64
 }
 
 func (c *Ctx) Quick() bool    { return c.Tier != "thorough" }
@@ -296,6 +309,7 @@ func (c *Ctx) NewW(space string) *W {
 func (c *Ctx) merge(w *W) {
 	c.mu.Lock()
 	defer c.mu.Unlock()
+	c.marker.clear(w.slot)
 	st := c.res.Spaces[w.space]
 	if st == nil {
 		st = newStats()
@@ -416,6 +430,9 @@ func (c *Ctx) runIndexed(sp *Space) {
 						c.marker.set(w.slot, sp.Name, i, "")
 					}
 					runGuarded(sp, i, w)
+					if c.stopSpace == sp.Name && i == c.stopIdx {
+						return
+					}
 				}
 			}
 		}()
@@ -547,6 +564,33 @@ func ReplayOne(chk *Check, tier string, v *Violation) []Violation {
 	c.res = &Result{Property: chk.ID, Spaces: map[string]*SpaceStats{}, ntKeys: map[string]map[uint64]struct{}{}, ntN: map[string]int64{}}
 	if chk.SingleThread {
 		runtime.GOMAXPROCS(1)
+	}
+	if v.ShardReplay != nil {
+		var d struct {
+			Idx int64 `json:"idx"`
+		}
+		if err := json.Unmarshal(v.Case, &d); err != nil {
+			os.Exit(3)
+		}
+		c.Shard, c.Shards = v.ShardReplay.Shard, v.ShardReplay.Shards
+		if len(v.ShardReplay.Skip) > 0 {
+			c.skip = map[string]bool{}
+			for _, k := range v.ShardReplay.Skip {
+				c.skip[k] = true
+			}
+		}
+		c.stopSpace, c.stopIdx = v.Space, d.Idx
+		for _, sp := range chk.Spaces(c) {
+			if sp.RunAll != nil {
+				sp.RunAll(c)
+			} else {
+				c.runIndexed(sp)
+			}
+			if sp.Name == v.Space {
+				break
+			}
+		}
+		return nil // still alive: the death did not reproduce
 	}
 	for _, sp := range chk.Spaces(c) {
 		if sp.Name != v.Space {
